@@ -273,7 +273,7 @@ def main(argv):
         for name, text, origin in cands:
             o_ = gen_opts(vsim.Rng(seed, "c08-opts", name))
             if origin == "hibyte":
-                o_ = ["-Q%d" % vsim.Rng(seed, "c08-opts", name).below(3), "-Fao", "-Ffm", "-Fc", "-Flsp", "-Fjava", "-Fasy", "-Fap"]
+                o_ = ["-Q%d" % vsim.Rng(seed, "c08-opts", name).below(3), "-Fao", "-Ffm", "-Fc", "-Flsp", "-Fjava", "-Fasy", "-Fap", "-Fc++"]
             if origin == "generated" and (b"throw" in text or b"try" in text):
                 o_ = [x for x in o_ if x != "-Fjava"]	# the Java back end does not implement exception handling
             work.append((name, text, origin, o_))
